@@ -243,7 +243,7 @@ class BranchRel32Relocation(Relocation):
     field = "imm32"
 
     def calc(self, sym_value, reloc_value):
-        return sym_value - reloc_value
+        return wrap_negative(sym_value - reloc_value, 32)
 
 
 class BranchBase(M68kInstruction):
